@@ -417,17 +417,8 @@ class SessionHandler:
 
     @staticmethod
     def _verify_session_id(previous: str, current: str) -> None:
-        if previous is not None:
-            _previous = previous.split(";")
-
-            if _previous:
-                if current == _previous[0]:
-                    SessionHandler.id += 1
-                    return
-
-            SessionHandler.reset()
-            return
-        
+        #: The (init, id) pair is what makes a Session-Id unique, so the counter
+        #: only ever grows - whatever identity the previous id was built for.
         SessionHandler.id += 1
 
 
